@@ -76,6 +76,9 @@ type-checks.  (Adapted from harness/c11/translate.py: the term language, decisio
     k == remainder                  is_remainder k rem        split_path_info(v)   gen_split_path_info v
   self.route_prefix (configurator) old / prefix : option text ; truth value of an Optional str = Some non-empty
   x.rstrip(c) x.lstrip(c) ; a + b ; '{}/{}'.format(a, b)    rstrip_char c x ; lstrip_char c x ; app a b ; fmt_slash a b
+  observers get_routes / has_routes / get_route (no state term: any store, augmented assignment or mutating method is a Problem)
+    x is True (x a bool parameter) -> x ; a + b (lists of routes) -> app a b (a NEW list) ; bool(x) -> truth value ;
+    self.routes.get(k) -> assoc_get (routes m) k
   connect parameters by position    name -> d_name d, pattern -> d_src d, predicates -> d_preds d, static -> d_static d (bool)
   return route (connect)            connected m        a failing Route(..)  ->  connect_failed m e
 """
@@ -242,6 +245,23 @@ def mk_if(b, t, e):
     raise Problem('internal: condition %r' % (b,))
 
 
+def b_term(b):
+    k = b[0]
+    if k == 'const':
+        return K('true' if b[1] else 'false')
+    if k == 'atom':
+        return b[1]
+    if k == 'not':
+        return A('negb', [b_term(b[1])])
+    if k in ('and', 'or') and b[1]:
+        ts = [b_term(x) for x in b[1]]
+        out = ts[-1]
+        for t in reversed(ts[:-1]):
+            out = A('andb' if k == 'and' else 'orb', [t, out])
+        return out
+    raise Problem('condition cannot be used as a value: %r' % (b[0],))
+
+
 def simplify(t, known):
     if isinstance(t, If):
         ak = t.atom.key()
@@ -333,6 +353,14 @@ FUNCS = [
                  (A('d_preds', [V('d')]), PREDS), (None, ERASED), (('atom', A('d_static', [V('d')])), BOOL)],
          sig='(parse : text -> res pat) (m : mapper) (id : nat) (d : decl) : mapper * res unit',
          coqret='mapper * res unit', default='(m, CompileError)'),
+    dict(file='pyramid/urldispatch.py', qual='RoutesMapper.get_routes', gen='gen_get_routes', kind='observer', ret=ROUTES,
+         params=[(None, SELFM), (('atom', V('include_static')), BOOL)],
+         sig='(m : mapper) (include_static : bool) : list route', coqret='list route', default='routelist m'),
+    dict(file='pyramid/urldispatch.py', qual='RoutesMapper.has_routes', gen='gen_has_routes', kind='observer', ret=BOOL,
+         params=[(None, SELFM)], sig='(m : mapper) : bool', coqret='bool', default='true'),
+    dict(file='pyramid/urldispatch.py', qual='RoutesMapper.get_route', gen='gen_get_route', kind='observer', ret=OPT(ROUTE),
+         params=[(None, SELFM), (V('name'), TEXT)], sig='(m : mapper) (name : text) : option route',
+         coqret='option route', default='None'),
     dict(file='pyramid/urldispatch.py', qual='RoutesMapper.__call__', gen='gen_call', kind='call', ret='call',
          params=[(None, SELFM), (None, REQ)],
          sig='(mt : pat -> text -> option matchdict) (m : mapper) (method : text) (raw : option text) : tracedout',
@@ -370,6 +398,8 @@ FRAGS = [
 ]
 # every source function whose control flow is regenerated on every run (fragments: the rest is in pins_masked.json)
 TRANSLATED = ['pyramid/urldispatch.py:RoutesMapper.__call__', 'pyramid/urldispatch.py:RoutesMapper.connect',
+              'pyramid/urldispatch.py:RoutesMapper.get_routes', 'pyramid/urldispatch.py:RoutesMapper.has_routes',
+              'pyramid/urldispatch.py:RoutesMapper.get_route',
               'pyramid/urldispatch.py:Route.__init__', 'pyramid/urldispatch.py:_compile_route.matcher',
               'pyramid/traversal.py:split_path_info', 'pyramid/traversal.py:decode_path_info',
               'pyramid/config/routes.py:RoutesConfiguratorMixin.add_route',
@@ -435,6 +465,9 @@ class Tr:
         a = fn.args
         if a.vararg or a.kwarg or a.kwonlyargs or getattr(a, 'posonlyargs', []):
             raise Problem('unexpected parameter list (*args, **kwargs, keyword-only)')
+        for dflt in list(a.defaults) + [x for x in a.kw_defaults if x is not None]:
+            if not (isinstance(dflt, ast.Constant) or (isinstance(dflt, ast.Tuple) and not dflt.elts)):
+                raise Problem('mutable or computed default argument: %s' % u(dflt))
         if len(a.args) != len(spec['params']):
             raise Problem('expected %d parameters, found %d' % (len(spec['params']), len(a.args)))
         env = {}
@@ -539,6 +572,11 @@ class Tr:
             if ty == ROUTE and isinstance(obj, V) and obj.name == env.get('$new', (None,))[0]:
                 return A('connected', [env['$m'][0]])
             raise Problem('connect must return the route it created: %s' % u(s))
+        if kind == 'observer':
+            want = self.spec['ret']
+            if ty == want:
+                return b_term(obj) if want == BOOL else obj
+            raise Problem('return of a %s where a %s is expected: %s' % (ty, want, u(s)))
         if kind == 'pure':
             want = self.spec['ret']
             if ty == want or (want == SEGS and ty == SEGSOWN):
@@ -809,6 +847,11 @@ class Tr:
                 target[name] = (val, inner)
             c = ('opt', obj, b, narrow)
             return c if isinstance(n.ops[0], ast.IsNot) else ('not', c)
+        if isinstance(n, ast.Compare) and len(n.ops) == 1 and isinstance(n.ops[0], (ast.Is, ast.IsNot)) \
+                and isinstance(n.comparators[0], ast.Constant) and n.comparators[0].value is True \
+                and isinstance(n.left, ast.Name) and env.get(n.left.id, (0, 0))[1] == BOOL:
+            c = env[n.left.id][0]
+            return c if isinstance(n.ops[0], ast.Is) else ('not', c)
         if isinstance(n, ast.Compare) and len(n.ops) == 1 and isinstance(n.ops[0], (ast.In, ast.NotIn)):
             lobj, lty = self.expr(n.left, env, facts)
             robj, rty = self.expr(n.comparators[0], env, facts)
@@ -834,7 +877,7 @@ class Tr:
             def narrow(target, val, key=key):
                 target[key] = (val, TEXT)
             return ('and', [('opt', obj, b, narrow), ('not', ('atom', A('l_is_nil', [V(b)])))])
-        if ty in (TEXT, SEGS, SEGSOWN, PREDS):
+        if ty in (TEXT, SEGS, SEGSOWN, PREDS, ROUTES):
             return ('not', ('atom', A('l_is_nil', [obj])))
         raise Problem('truth value of a %s is outside the table: %s' % (ty, u(n)))
 
@@ -857,6 +900,8 @@ class Tr:
             robj, rty = self.expr(n.right, env, facts)
             if lty == TEXT and rty == TEXT:
                 return A('app', [lobj, robj]), TEXT
+            if lty == ROUTES and rty == ROUTES:
+                return A('app', [lobj, robj]), ROUTES        # a NEW list
             raise Problem('+ between a %s and a %s is outside the table: %s' % (lty, rty, u(n)))
         if isinstance(n, (ast.List, ast.Tuple)) and not n.elts:
             return K('[]'), (SEGSOWN if isinstance(n, ast.List) else SEGS)
@@ -930,6 +975,13 @@ class Tr:
         f = n.func
         if n.keywords:
             raise Problem('keyword arguments: %s' % u(n))
+        if isinstance(f, ast.Name) and f.id == 'bool' and f.id not in env and len(n.args) == 1 and not n.keywords:
+            return self.cond(n.args[0], env, facts), BOOL
+        if isinstance(f, ast.Attribute) and f.attr == 'get' and len(n.args) == 1 and not n.keywords \
+                and self.is_self_attr(f.value, env, 'routes'):
+            kobj, kty = self.expr(n.args[0], env, facts)
+            if kty == TEXT:
+                return A('assoc_get', [self.expr(f.value, env, facts)[0], kobj]), OPT(ROUTE)
         if isinstance(f, ast.Attribute) and f.attr == 'items' and not n.args and isinstance(f.value, ast.Call) \
                 and isinstance(f.value.func, ast.Attribute) and f.value.func.attr == 'groupdict' and not f.value.args \
                 and not f.value.keywords:
@@ -1025,7 +1077,7 @@ WANT = {'pyramid/urldispatch.py': {'Route': ['class'], '_compile_route': ['def']
         'pyramid/config/routes.py': {'RoutesConfiguratorMixin': ['class'], 'urlparse': ['from urllib.parse import urlparse']},
         'pyramid/traversal.py': {'split_path_info': ['def'], 'decode_path_info': ['def'],
                                  'lru_cache': ['from functools import lru_cache']}}
-BUILTINS = ('all', 'tuple', 'KeyError', 'UnicodeDecodeError')
+BUILTINS = ('all', 'tuple', 'bool', 'KeyError', 'UnicodeDecodeError')
 
 
 def check_module(rel, tree, problems):
